@@ -277,6 +277,7 @@ def loop_containing(fn, ins):
 
 def arg_is_field_of(fn, ref, field):
     """pointer `ref` is the address of struct field `field` (e.g. 'myth_running_env.runnable_q')"""
+    fn.mod.check_fields(field)
     a = fn.ap(ref)
     return bool(a.fields) and a.fields[-1] == field
 
@@ -503,6 +504,8 @@ def delta_of(fn, new_ref, exp_ref):
 
 
 def is_load_of(fn, ref, field, volatile=None):
+    if field:
+        fn.mod.check_fields(field)
     for k in fn.sources(ref):
         ins = fn.insts.get(k) if not k.startswith('{') else None
         if ins is None or ins.op != 'load' or fn.field(ins) != field:
